@@ -65,7 +65,7 @@ package cstate
 // Verified aspect: a block enters the cache only after validateBlock accepted it (validation runs while
 // the block is not yet cached).
 //@ aspect func (blockExec *BlockExecutor) ValidateBlock(state LatestBlockState, block *types.Block) (err error)
-//@   for C03 C01
+//@   for C03 C01 C13
 //@   requires blockExec != nil && block != nil
 //@   modifies *
 //@   opt assumecallreqs
@@ -154,3 +154,21 @@ package cstate
 //@   modifies *
 //@   opt assumecallreqs
 //@   atcall ValidatorSet.CopyIncrementProposerPriority requires [nextSetIsOneRotationAhead] times == 1
+
+// The store's public entry points always go to the records: Load reads the state of the head block's
+// height whatever that height is (0 included), Save writes the state it is given whatever is stored
+// already (a re-applied height replaces its record).
+//@ func (s *dbStore) Load() (r LatestBlockState)
+//@   for C14
+//@   requires s != nil
+//@   modifies *
+//@   opt assumecallreqs
+//@   atcall loadStateAtHeight requires [stateOfTheHeadBlock] db == s.db && height == types.blockHeightOf(result(ReadHeadBlock))
+//@   ensures [alwaysConsultsTheStore] called(loadStateAtHeight)
+//@ func (s *dbStore) Save(state LatestBlockState)
+//@   for C14
+//@   requires s != nil
+//@   modifies *
+//@   opt assumecallreqs
+//@   atcall saveState requires [writesToTheStoresDatabase] db == s.db
+//@   ensures [everySaveIsWritten] called(saveState)
